@@ -6,7 +6,7 @@
    Not yet proved (see DESIGN.md, C13): soundness/completeness of the generated parser (C13_sound,
    C13_complete, C13_unambiguous); these are decided on explored grammars by the derivation oracle. *)
 From Coq Require Import Sorting.Sorted.
-From Theo Require Import Base Grammar LR SpecMacro LRStatements Proofs_First LRCompleteStatements Proofs_LRComplete.
+From Theo Require Import Base Grammar LR SpecMacro LRStatements Proofs_First LRCompleteStatements Proofs_LRComplete LRTermStatements Tokens Errors MacroExtract MacroApply CompileStatements ApplyStatements MacroStatements Proofs_LRTerm.
 Local Open Scope N_scope.
 
 (* every member of a computed FIRST set is justified by a derivation of a sentential form *)
@@ -140,3 +140,13 @@ Theorem C13_unambiguous :
     yield tr1 = yield tr2 -> tr1 = tr2.
 Proof. exact C13_unambiguous_proof. Qed.
 Print Assumptions C13_unambiguous.
+
+Theorem C13_parse_terminates :
+  forall (T V : Type) (translator : T -> N) (creator : T -> V) (semantic : sym -> N -> list V -> V)
+         max_states g prefix S eof g' tab confs states input,
+    wf_grammar g -> start_ok g S eof -> rhs_closed g -> eof_fresh g eof ->
+    eps_free g S -> unit_acyclic g ->
+    generate_tables max_states g prefix S eof = Ok (g', tab, confs, states) ->
+    exists fuel, forall k, parse translator creator semantic tab (fuel + k) input <> Fuel.
+Proof. exact C13_parse_terminates_proof. Qed.
+Print Assumptions C13_parse_terminates.
